@@ -27,6 +27,8 @@ def parseSched (t : String) : Option (List Accept) :=
     else if a = "err" then some Accept.hard
     else a.toNat?.map Accept.upTo
 
+/- NOTE: a dropped text is handed back as a C string (`char *`): the driver prints it up to the
+   first NUL, exactly what the harness can observe through the API. -/
 def finish (old s : St) (res : String) (wire : Bytes) : St × String :=
   let ev := if s.disconnects > old.disconnects
     then ",".intercalate (List.replicate (s.disconnects - old.disconnects) "DISCONNECT") else "-"
@@ -49,9 +51,9 @@ def step (s : St) (line : String) : St × String :=
         | "ss" => finish s (sendRaw s .smStrophe b) "ok" []
         | _ => (s, "= bad-op")
   | ["dropo"] => let (s', r) := dropElement s .oldest
-                 finish s s' ("drop " ++ (match r with | some b => Hex.ofBytes b | none => "null")) []
+                 finish s s' ("drop " ++ (match r with | some b => Hex.ofBytes (b.takeWhile (· ≠ 0)) | none => "null")) []
   | ["dropy"] => let (s', r) := dropElement s .youngest
-                 finish s s' ("drop " ++ (match r with | some b => Hex.ofBytes b | none => "null")) []
+                 finish s s' ("drop " ++ (match r with | some b => Hex.ofBytes (b.takeWhile (· ≠ 0)) | none => "null")) []
   | ["len"] => finish s s s!"len {queueLen s}" []
   | ["disc"] => finish s (disconnect s) "ok" []
   | _ => (s, "= bad-op")
